@@ -154,14 +154,19 @@ def run_step(name, c, other, cs, z_new, z_old, k, t, num, out, klass0, idx):
     n = c.npts
     zero = 0 * c.ctrlpoints[0]
     umin, umax = c.knotvector.limits
+    # node sequences are handed over in any accepted form (list / tuple / one-shot iterable), fixed by the step data
+    form = ("list", "gen", "tuple", "iter", "list", "map")[(k + idx) % 6]
+
+    def sq(values):
+        return lib.seq_form(values, form)
     if name == "knot_insert":
-        c.knot_insert([z_new] if k % 2 else [z_new, z_new][: 1 + (c.degree > 0)])
+        c.knot_insert(sq([z_new] if k % 2 else [z_new, z_new][: 1 + (c.degree > 0)]))
     elif name == "knot_insert_bad":
-        c.knot_insert([z_new, umax + (umax - umin), z_new] if k % 2 else [umin, z_new, umax])
+        c.knot_insert(sq([z_new, umax + (umax - umin), z_new] if k % 2 else [umin, z_new, umax]))
     elif name == "knot_remove":
-        c.knot_remove([z_old] if z_old is not None else [z_new], None if k % 3 == 0 else 1e-9)
+        c.knot_remove(sq([z_old] if z_old is not None else [z_new]), None if k % 3 == 0 else 1e-9)
     elif name == "knot_remove_bad":
-        c.knot_remove([z_new] if k % 2 else [umin])
+        c.knot_remove(sq([z_new] if k % 2 else [umin]))
     elif name == "knot_clean":
         c.knot_clean()
     elif name == "degree_increase":
@@ -250,7 +255,7 @@ def run_step(name, c, other, cs, z_new, z_old, k, t, num, out, klass0, idx):
         c != other
         c == 5
     elif name == "split":
-        for pc in c.split([z_new] if k % 2 else ([] if k % 4 == 0 else None)):
+        for pc in c.split(sq([z_new]) if k % 2 else ([] if k % 4 == 0 else None)):
             structural_result(pc, out, klass0, name, idx)
             if pc is c:
                 out.fail("result-aliases-operand", f"{klass0};{name}", f"step {idx}: split returned the operand itself")
